@@ -219,7 +219,7 @@ def _open(file, mode="r", *args, **kwargs):
 def _mutator(name, real, effect_check=None, two_paths=False):
     def wrapper(path, *args, **kwargs):
         vp = cur()
-        if vp is None:
+        if vp is None or kwargs.get("dir_fd") is not None:
             return real(path, *args, **kwargs)
         p = _shared(path)
         if p is None:
